@@ -16,7 +16,7 @@ class C14(PropBase):
             "loadable generations are in order (after success exactly the previous ones), a zip destination is never a "
             "partial archive, registry and serializing flags are restored, no temp files remain, and a fresh save+load "
             "round-trips; non-trivial = a fault fired inside a save or load; distinct = distinct event-log digest")
-    tiers = {"quick": {"budget_s": 35, "timeout_s": 240}, "thorough": {"budget_s": 900, "timeout_s": 600}}
+    tiers = {"quick": {"budget_s": 35, "timeout_s": 240}, "thorough": {"budget_s": 900, "timeout_s": 1500}}
     reach_probes = ["reach/failed_saves", "reach/enumerated_points", "reach/attempts_checked", "reach/usable_checks"]
     assumptions = ["only error-type interruptions (no kill -9 / power loss): Python finally blocks run",
                    "a partially written directory at the path is legal as long as the last good generation is at the path or _BAK1"]
